@@ -108,7 +108,8 @@ class Crate:
         self.impls = []     # (trait name or None, self type, file, line, attrs)
         self.files = []     # [(path, modkey)]
         self.rejected_items = {}
-        self.unsupported_types = {}   # name -> reason (fields outside the supported types)
+        self.unsupported_types = {}
+        self.dropped_variants = {}   # name -> reason (fields outside the supported types)
         # rejected_items: description -> reason (items that could not even be declared)
         self.file_order = []
         self.raw_items = []
@@ -178,9 +179,23 @@ class Crate:
                         for _, t in it.fields:
                             self.conv_type(t, tps, it.file)
                     else:
-                        for v in it.variants:
-                            for t in v.payload:
-                                self.conv_type(t, tps, it.file)
+                        # a variant whose payload is outside the supported types is left out of the MODEL
+                        # (with every match arm on it): the model then speaks about the remaining variants only
+                        # - e.g. about the ten shipped layouts when AnyLayout gains a `Custom(&dyn ..)` variant;
+                        # Gen/Sigs.v (C20) still records the full declaration
+                        if not hasattr(it, 'all_variants'):
+                            it.all_variants = list(it.variants)
+                        for v in list(it.variants):
+                            try:
+                                for t in v.payload:
+                                    self.conv_type(t, tps, it.file)
+                            except Unsupported as u:
+                                if len(it.variants) > 1:
+                                    it.variants.remove(v)
+                                    self.dropped_variants.setdefault(n, {})[v.name] = str(u)
+                                    changed = True
+                                else:
+                                    raise
                 except Unsupported as u:
                     self.unsupported_types[n] = str(u)
                     changed = True
@@ -254,6 +269,8 @@ class Crate:
             return ('array', self.conv_type(ty.elem, tparams, path, self_ty), self.const_eval(ty.len, path))
         if ty.kind == 'tslice':
             raise Unsupported("slice types are not supported", path, ty.line)
+        if ty.kind == 'tdyn':
+            raise Unsupported("dyn/impl types are not supported", path, ty.line)
         if ty.kind == 'tfn':
             if not ty.args:
                 raise Unsupported("fn pointers without arguments are not supported", path, ty.line)
